@@ -391,6 +391,28 @@ func runC07(w *W) {
 		}
 	}
 
+	// (1a') set-operation chains of every operator mix behind every kind of head (the statement-level parser has separate paths
+	// for a leading WITH, for a chain that starts with INTERSECT/EXCEPT and for UNION modes that follow such a chain)
+	{
+		ops := []string{"UNION ALL", "UNION DISTINCT", "UNION", "INTERSECT", "EXCEPT", "INTERSECT DISTINCT", "EXCEPT DISTINCT"}
+		operands := []string{"SELECT 2", "SELECT a FROM t", "(SELECT 3)", "(SELECT 4 UNION ALL SELECT 5)", "SELECT 6 WHERE 1"}
+		heads := []string{"SELECT 1", "WITH 1 AS x SELECT x", "WITH c AS (SELECT 1) SELECT * FROM c", "SELECT a FROM t WHERE b"}
+		nChain := w.pickN(6000, 100000)
+		for k := 0; k < nChain; k++ {
+			idx, mine := w.Case()
+			if !mine {
+				continue
+			}
+			r := NewRng(w.Seed, uint64(idx), 78)
+			parts := []string{pick(r, heads)}
+			n := 1 + r.Intn(4)
+			for i := 0; i < n; i++ {
+				parts = append(parts, pick(r, ops), pick(r, operands))
+			}
+			st.c07Query(idx, strings.Join(parts, " "), "setop-chain")
+		}
+	}
+
 	// (1b) deep but narrow queries: embedded, their indentation crosses 128 / 256 / 512 / 1024 columns
 	for _, depth := range []int{16, 30, 36, 40, 70, 75, 140, 150} {
 		q := "SELECT 1"
